@@ -20,7 +20,8 @@ echo "demo without change: $DEMO_CLEAN"
 echo "demo with change   : $DEMO_MUT"
 RES=""
 for P in $PROP $EXTRA; do
-  OUTP=$(cd $HERE && VERIF_REPO=$WT ./check $P 2>&1 | cut -c1-400)
+  OUTP=$(cd $HERE && VERIF_REPO=$WT VERIF_EVIDENCE_DIR=$WT/.verif_ev VERIF_OUT_DIR=$WT/.verif_out ./check $P 2>&1 | cut -c1-400)
+  mkdir -p $OUT/replay; cp -r $WT/.verif_out/replay/. $OUT/replay/ 2>/dev/null
   CODE=$(echo "$OUTP" | grep -c "^VIOLATION")
   LAST=$(echo "$OUTP" | tail -1)
   echo "--- check $P:"; echo "$OUTP" | grep "^VIOLATION\|^UNDECIDED\|^CHECKER\|^KNOWN" | head -6; echo "$LAST"
@@ -40,5 +41,3 @@ if os.path.exists(os.path.join(out, "meta.json")):
 old.update(meta)
 json.dump(old, open(os.path.join(out, "meta.json"), "w"), indent=1)
 PY
-# restore evidence written against the scratch tree
-cd $HERE && git checkout -q -- evidence 2>/dev/null
